@@ -58,6 +58,10 @@ def kind_spec(kind, pfx, exe):
         base = kind_spec(kind.split("-")[0], pfx, exe)
         base = dict(base, fire="(ev/chan-close %s)" % pfx)
         return base
+    if kind == "selgive-same":
+        # as the second wait B only: a select give clause on the very channel whose take was abandoned before (channel a);
+        # it must block until a live taker arrives
+        return dict(setup="", wait="(ev/select [a 222])", fire="nil", complete="(ev/take a)", legit=["[:give abstract:a]"])
     if kind == "sleep":
         return dict(setup="", wait="(ev/sleep 0.07)", fire="nil", complete="nil", legit=["nil"], self_completing=True)
     if kind == "read":
@@ -75,13 +79,17 @@ def kind_spec(kind, pfx, exe):
 
 
 A_KINDS = ["take", "give", "seltake", "selgive", "sleep", "read", "procwait", "deadline", "take-closefire", "seltake-closefire", "give-closefire"]
-B_KINDS = ["take", "give", "seltake", "selgive", "sleep", "read", "procwait", "deadline"]
+B_KINDS = ["take", "give", "seltake", "selgive", "sleep", "read", "procwait", "deadline", "selgive-same"]
 ABANDON = ["cancel", "deadline", "select-other", "timeout-arg"]
 
 
 def make_scenario(rng, akind, bkind, method, exe, flavour="chan"):
     A = kind_spec(akind, "a", exe)
     B = kind_spec(bkind, "b", exe)
+    if bkind == "selgive-same":
+        if akind not in ("take", "seltake", "deadline"):
+            return None
+        A = dict(A, fire="nil")     # nobody gives on a: the only live party afterwards is F's own give clause
     if flavour == "tchan":
         # the same single-thread scenario over thread channels: every hand-off goes through the thread-channel code path
         A = dict(A, setup=A["setup"].replace("(ev/chan)", "(ev/thread-chan)"))
@@ -120,7 +128,7 @@ def make_scenario(rng, akind, bkind, method, exe, flavour="chan"):
     helper.append("(mark \"complete-B\") %s" % B["complete"])
     # rule 3: after everything, a fresh live taker on A's channel must still get what was given after the abandonment
     post = ""
-    if akind == "take" and method in ("cancel", "deadline"):
+    if akind == "take" and method in ("cancel", "deadline") and bkind != "selgive-same":
         post = "(ev/sleep 0.02) (op 2 \"fresh-take\" (ev/with-deadline 2 (ev/take a)))"
     lines.append("(ev/spawn %s %s (mark \"helper-done\") (ev/sleep 0.06) (os/exit 0))" % (" ".join(helper), post))
     # safety net so the process always ends (logical hang detection is done from the log)
@@ -256,7 +264,7 @@ def run(ctx):
                 for m in ABANDON:
                     cases.append((a, b, m, rep, "chan"))
     # the channel kinds again over thread channels used within one thread
-    CH = ("take", "give", "seltake", "selgive", "deadline", "take-closefire", "seltake-closefire", "give-closefire")
+    CH = ("take", "give", "seltake", "selgive", "deadline", "take-closefire", "seltake-closefire", "give-closefire", "selgive-same")
     for rep in range(reps):
         for a in A_KINDS:
             for b in B_KINDS:
